@@ -2,6 +2,7 @@
 import ast
 
 from sa.index import AnalysisError, FuncInfo, ClassInfo
+from sa.index import before as _before
 from sa import opsum as O
 from sa.rules import opref
 
@@ -243,7 +244,7 @@ def check_first_sample(ix, rep, funcs, label, rule='R-SEGOUT'):
                 continue
             init = None
             for s2 in ast.walk(f.node):
-                if isinstance(s2, ast.Assign) and isinstance(s2.targets[0], ast.Name) and s2.targets[0].id == pname and s2.lineno < lp.lineno:
+                if isinstance(s2, ast.Assign) and isinstance(s2.targets[0], ast.Name) and s2.targets[0].id == pname and _before(s2, lp):
                     init = s2.value
             n += 1
             rep.analysed(f)
